@@ -108,6 +108,7 @@ struct Th {
     void* (*fn)(void*);
     void* arg;
     uint32_t steps;       // scheduling steps taken by this thread (for the state hash)
+    bool skip_after_store; // the pending atomic store was announced by a source hook: no point of its own after it either
     uint32_t hook_step_p1; // steps + 1 right after a source hook (osmium_verif_sched_point) returned; 0 = none: the atomic access that follows was announced
 };
 
@@ -560,6 +561,16 @@ char* strtok(char* str, const char* delim) {
     return r;
 }
 
+// ... and AFTER every store / read-modify-write on such an atomic: the thread has published something and goes on working - the window
+// of "flag set before the state it announces is complete" (seed C08f) lies between the store and the thread's next visible operation.
+void vsched_atomic_after_store() {
+    if (!managed()) return;
+    Th* t = cur;
+    if (t->skip_after_store) { t->skip_after_store = false; return; }
+    t->st = S_AT_POINT; t->obj = -9;
+    reschedule(t);
+}
+
 // zlib's one-shot decompressor fills caller-supplied memory and the caller then works on it without any synchronisation: a point
 // after the call lets another thread run between "filled" and "used", so a destination that two threads share (a scratch string
 // hoisted to static storage) shows as wrong output under the explorer instead of needing a real-time overlap.
@@ -590,7 +601,8 @@ void osmium_verif_sched_point(const char* tag) {
 void vsched_atomic_point(const char* tag) {
     if (!managed()) return;
     Th* t = cur;
-    if (t->hook_step_p1 == t->steps + 1) { t->hook_step_p1 = 0; return; }
+    t->skip_after_store = false;
+    if (t->hook_step_p1 == t->steps + 1) { t->hook_step_p1 = 0; t->skip_after_store = true; return; }
     if (tag[0] == 'l') { for (int o = 0; o < E.nobj; ++o) if (E.owner[o] == t->id) return; }
     else progress();
     t->st = S_AT_POINT; t->obj = -6;
